@@ -1109,8 +1109,13 @@ static void run_line (const std::string& line_in)
     if (blocks_now != blocks_before) wmsg ("C06", o + ": constructor threw and leaked a block");
     if (reg_internal_count () != objs_before) wmsg ("C06", o + ": constructor threw and leaked element objects");
   }
-  // C05: strong guarantee for the growing calls
+  // C05: strong guarantee for the growing calls (not promised when the documented opt-out macro is defined: only an
+  // allocator failure, which happens before any element is touched, still leaves everything as it was)
+#ifdef GCH_NO_STRONG_EXCEPTION_GUARANTEES
+  if (exc == "alloc")
+#else
   if (exc == "elem" || exc == "alloc")
+#endif
   {
     bool excluded_move_only = false;
     if (! is_ctor && is_growing_strong (o, c, before_x.f.size) && ! excluded_move_only)
